@@ -98,6 +98,82 @@ func (p *Program) CallSites(pkgPath, anchor string) map[string]map[string]bool {
 	return out
 }
 
+// Reaches reports, for the static call graph restricted to the module's own functions, which
+// of the forbidden callees (qualified names such as "os.OpenFile") are reachable from root
+// (a function or method name in pkgPath, e.g. "saveToPersonalDatabase" or "(*SearchHistory).Save")
+// without passing through one of the `through` functions. Result: forbidden callee -> the
+// module function that calls it. found=false when root does not exist.
+func (p *Program) Reaches(modulePath, pkgPath, root string, forbidden, through []string) (map[string]string, bool) {
+	forb := map[string]bool{}
+	for _, f := range forbidden {
+		forb[f] = true
+	}
+	thr := map[string]bool{}
+	for _, f := range through {
+		thr[f] = true
+	}
+	// local: "Name" for functions, "(*T).Name" / "(T).Name" for methods
+	local := func(fn *ssa.Function) string {
+		if recv := fn.Signature.Recv(); recv != nil {
+			return "(" + types.TypeString(recv.Type(), func(*types.Package) string { return "" }) + ")." + fn.Name()
+		}
+		return fn.Name()
+	}
+	qual := func(fn *ssa.Function) string {
+		if fn.Pkg == nil {
+			return fn.String()
+		}
+		return fn.Pkg.Pkg.Name() + "." + local(fn)
+	}
+	var start *ssa.Function
+	for fn := range ssautil.AllFunctions(p.Prog) {
+		if fn.Pkg == nil || fn.Pkg.Pkg.Path() != pkgPath {
+			continue
+		}
+		if local(fn) == root {
+			start = fn
+		}
+	}
+	if start == nil {
+		return nil, false
+	}
+	out := map[string]string{}
+	seen := map[*ssa.Function]bool{start: true}
+	work := []*ssa.Function{start}
+	for len(work) > 0 {
+		fn := work[len(work)-1]
+		work = work[:len(work)-1]
+		visit := func(sc *ssa.Function) {
+			if sc == nil {
+				return
+			}
+			q := qual(sc)
+			if forb[q] {
+				if _, ok := out[q]; !ok {
+					out[q] = fn.String()
+				}
+				return
+			}
+			if thr[q] || seen[sc] || sc.Pkg == nil || !strings.HasPrefix(sc.Pkg.Pkg.Path(), modulePath) {
+				return
+			}
+			seen[sc] = true
+			work = append(work, sc)
+		}
+		for _, an := range fn.AnonFuncs {
+			visit(an)
+		}
+		for _, b := range fn.Blocks {
+			for _, ins := range b.Instrs {
+				if c, ok := ins.(ssa.CallInstruction); ok {
+					visit(c.Common().StaticCallee())
+				}
+			}
+		}
+	}
+	return out, true
+}
+
 // loaderEnv: the `go list` driver must be go1.26.8 (x/tools v0.50.0 and the
 // repo's go 1.25.5 directive both need it), whatever PATH / GOTOOLCHAIN the
 // caller has.
